@@ -294,7 +294,7 @@ PROPS["C05"] = dict(
 )
 
 PROPS["C08"] = dict(
-    modules=["contracts.cached"],
+    modules=["contracts.cached", "contracts.grpc_cache"],
     claim="_CachedStorage: the cache invariant K (a cached trial not marked unfinished is finished and IS the backend's "
           "snapshot; every backend trial of a cached study with id <= last_finished_trial_id is cached or marked unfinished; "
           "the id maps agree with the per-study dicts) is preserved by create_new_trial, by the sync "
@@ -302,9 +302,14 @@ PROPS["C08"] = dict(
           "history other clients can produce (ghost backend evolving under storage-contract transitions at every backend "
           "call). After a sync every backend trial of the study is cached and every cached trial is the backend's current "
           "snapshot; get_all_trials returns cached trials whose state matches, strictly ordered by number; get_trial "
-          "returns the backend's snapshot. Guard discipline (C03) for the cache fields.",
+          "returns the backend's snapshot. Guard discipline (C03) for the cache fields. GrpcClientCache: "
+          "_add_trial_to_cache has its exact effect (file under the number; unfinished ids stay in the re-fetch set; a finished "
+          "trial raises the watermark to at least its id; nothing else changes); _read_trials_from_remote_storage asks for "
+          "exactly (re-fetch set, ids above the watermark), files every trial of the reply, forgets the study on NOT_FOUND "
+          "and leaves the cache alone on other RPC errors.",
     note="the SQL of RDBStorage._get_trials/_create_new_trial/get_trial is assumed to implement the stated contracts; "
-         "GrpcClientCache (protobuf/gRPC stubs) not covered; completeness of the list built by get_all_trials from the "
+         "for GrpcClientCache the multi-client view argument (evolving backend) is not repeated and get_all_trials is not "
+         "under contract; completeness of the list built by get_all_trials from the "
          "cache (no cached matching trial dropped) is not proved",
     assumptions=LIB_ASSUMPTIONS + [
         "backend contracts (assumed, SQL): _get_trials returns the current snapshots of exactly the trials with id in the "
@@ -312,7 +317,7 @@ PROPS["C08"] = dict(
         "larger than every existing id; get_trial returns the current snapshot",
         "other clients change the backend only by storage-contract transitions (ids grow, finished trials are frozen, "
         "(study, number) unique)", "sorted(): ordered permutation (library contract)"],
-    not_covered=["GrpcClientCache and the servicer's GetTrials filter", "study deletion by another client (admitted by the class docstring)",
+    not_covered=["GrpcClientCache.get_all_trials and the servicer's GetTrials filter", "study deletion by another client (admitted by the class docstring)",
                  "thread interleavings inside one cached client beyond the guard discipline"],
     witnesses={"_CachedStorage.create_new_trial:post/all/2": "witnesses.f2"},
 )
